@@ -118,7 +118,10 @@ def judge(rep, drv, rec, text, label):
     if at != mt:
         rep.broken_ties.append(dict(payload, tie='model lexer and the generated ANTLR lexer disagree', antlr=at, model=mt))
     if in_language and real[0] != 'ok' and front[0] == 'ok' and not front[1]:
-        rep.broken_ties.append(dict(payload, tie='real compiler rejects (%s) a sentence the model front end accepts' % real[1]))
+        # the front end accepts; the later stages (clause compiler, size limits) may still refuse
+        model = comp.model_compile(drv, text)
+        if model[0] == 'ok':
+            rep.broken_ties.append(dict(payload, tie='real compiler rejects (%s) a sentence the model compiler accepts' % real[1]))
     return True
 
 
